@@ -18,6 +18,10 @@ type SimilarCfg struct {
 	Files []string
 	// Shuffle interleaves the members of different groups.
 	Shuffle bool
+	// DupIDs lets some goroutines reuse the id of an earlier one (two dumps of
+	// different processes pasted with one blank line in between read as one
+	// dump and look like that).
+	DupIDs bool
 }
 
 type slot struct {
@@ -105,6 +109,10 @@ func GenerateSimilar(r *core.Rng, c SimilarCfg) *Doc {
 		nm := r.Range(1, c.MaxPerGrp)
 		for m := 0; m < nm; m++ {
 			id += r.Range(1, 9)
+			gid := id
+			if c.DupIDs && len(gs) > 0 && r.Chance(0.3) {
+				gid = gs[r.Intn(len(gs))].ID
+			}
 			st := t.state
 			if r.Chance(0.3) {
 				st += fmt.Sprintf(", %d minutes", r.Range(1, 90))
@@ -112,7 +120,7 @@ func GenerateSimilar(r *core.Rng, c SimilarCfg) *Doc {
 			if r.Chance(0.2) {
 				st += ", locked to thread"
 			}
-			g := Gor{ID: id, Header: fmt.Sprintf("goroutine %d [%s]:", id, st)}
+			g := Gor{ID: gid, Header: fmt.Sprintf("goroutine %d [%s]:", gid, st)}
 			for fi := range t.frames {
 				var args []string
 				for _, sl := range t.slots[fi] {
